@@ -674,6 +674,12 @@ func (e *Enc) havocAll(st *State) {
 	for k := range e.immutableKeys() {
 		keep[k] = e.heapGet(st, k)
 	}
+	for name, g := range e.w.CS.Ghosts {
+		if g.Local {
+			k, _ := e.ghostKey(name)
+			keep[k] = e.heapGet(st, k)
+		}
+	}
 	oldProt := map[string]Term{}
 	for k := range e.protected {
 		oldProt[k] = e.heapGet(st, k)
